@@ -15,6 +15,11 @@ CONSTANTS
   MaxSends = 8
   MaxDeposits = 5
   MaxBlocks = 30
+  Orchs = {"o1", "o2", "o3"}
+  Exts = {"e1", "e2", "e3"}
+  KeyChains = {"ethereum", "minter"}
+  KeyVariants = {"good", "wrongtx", "wrongkey", "stale", "wrongval"}
+  KeepHist = TRUE
   TwoLevel = TRUE
   EmitScripts = TRUE
 CONSTRAINT Emit
